@@ -202,6 +202,7 @@ type ClientOpts struct {
 	Caps              []string
 	Track             bool
 	CtxDialer         bool
+	Direct            bool // no proxy configured: the library's own net.Dialer path
 	Server            string
 	SplitLen          int
 	Recover           func(*client.Conn, *client.Line)
@@ -221,6 +222,9 @@ func (g G) Knobs(o ClientOpts) ClientOpts {
 	}
 	if o.Sasl == nil && g.Pct(20) {
 		o.Sasl = sasl.NewPlainClient("", "knob", "knob")
+	}
+	if !o.CtxDialer && !o.Direct && g.Pct(25) {
+		o.Direct = true
 	}
 	if o.Caps == nil && g.Pct(20) {
 		o.Caps = []string{"multi-prefix", "sasl"}[:g.Range(1, 2)]
@@ -243,9 +247,12 @@ func NewClient(o ClientOpts) *client.Conn {
 	if cfg.Server == "" {
 		cfg.Server = "irc.sim"
 	}
-	if o.CtxDialer {
+	switch {
+	case o.Direct:
+		cfg.Proxy = ""
+	case o.CtxDialer:
 		cfg.Proxy = "simctx://proxy"
-	} else {
+	default:
 		cfg.Proxy = "sim://proxy"
 	}
 	if o.SplitLen != 0 {
